@@ -1173,9 +1173,28 @@ func TestC18(t *testing.T) {
 		}
 	})
 	c.ClassN("cli-runs", c18Runs)
+	if t.Failed() {
+		return
+	}
+	// Part 3: several generated files in one run.
+	c18nRun(t)
 }
 
 func TestReplayC18(t *testing.T) {
+	var probe struct {
+		Files []c18nFile `json:"files"`
+	}
+	if !loadReplay(t, "C18", &probe) {
+		return
+	}
+	if len(probe.Files) > 0 {
+		var nc c18nCase
+		loadReplay(t, "C18", &nc)
+		if sig, msg, _, _ := evalC18n(&nc); sig != "" {
+			violate(t, "C18", sig, msg, &nc)
+		}
+		return
+	}
 	var cs c18Case
 	if !loadReplay(t, "C18", &cs) {
 		return
